@@ -1,19 +1,25 @@
 (** C07 - Renaming rewrites exactly the matching names and nothing else.
 
-    PARTIAL.  Proved at the level of one name, for all pointer-free names given by their labels
-    (1..63 bytes each), non-root source and target: [replace_raw] replaces the trailing labels of
-    the name by the labels of the target exactly when those trailing labels equal the labels of
-    the source up to ASCII case - the whole name in exact mode, any suffix on a label boundary in
-    suffix mode (C07_replaces_matching_suffix); it fails instead of producing a name longer than
-    255 bytes (same theorem); in every other case it reports "no match" and the caller keeps the
-    name (C07_keeps_other_names); renaming a name to a case variant of itself gives the same
-    labels (C07_identity).  Also the shape of every replacement (C07_replace_raw_shape).
-    The packet-level statement (which names of the packet are visited, everything else copied,
-    counts / order / opaque data / OPT kept) is decided on every run by the correspondence and by
-    the abstract rename applied to the independently decoded message.  Known finding shared with
-    C06: pointer chains of more than 16 hops. *)
+    Proved for one name (all pointer-free names given by their labels of 1..63 bytes, non-root source and target):
+    [replace_raw] replaces the trailing labels of the name by the labels of the target exactly when those trailing labels equal
+    the labels of the source up to ASCII case - the whole name in exact mode, any suffix on a label boundary in suffix mode
+    (C07_replaces_matching_suffix); it fails instead of producing a name longer than 255 bytes (same theorem); in every other
+    case it reports "no match" and the caller keeps the name (C07_keeps_other_names); renaming a name to a case variant of
+    itself gives the same labels (C07_identity).  Also the shape of every replacement (C07_replace_raw_shape).
+    Proved at packet level (C07_packet), for every accepted packet - compressed or not - and every source / target given by
+    labels: [Renamer::rename_with_raw_names] either reports "invalid name" or returns the input's header, the question with its
+    name renamed by that rule and written in full, its type and class, and then record by record - answers, authority,
+    additional with the OPT record - the owner name renamed, the same type / class / TTL bytes, a data-length field equal to the
+    length of what follows, and the same data, the names inside NS / CNAME / PTR / MX / SOA data renamed by the same rule and
+    every other byte of data (OPT included) copied.  Names of the output are read by the reference decoder of C06 and
+    compared up to ASCII case, since the output is compressed again.  No Panic outcome.
+    PARTIAL: when exactly the error is reported (some renamed name exceeds 255 bytes) is stated per name, not collected at
+    packet level; acceptance of the output by the parser has the known finding chain-depth of C06; the wrapper on the packet
+    object (re-parse, offsets) is C08_rename_view.  The correspondence and the abstract rename applied to the independently
+    decoded message decide these on every run. *)
 From DV Require Import Model.Base Model.Parser Model.Header Model.Readers Model.Uncompress Model.Compress
-  Model.Renamer Spec.NameSpec Proofs.Hoare Proofs.CompressFrame Proofs.RenameSpec.
+  Model.Renamer Spec.NameSpec Spec.PacketSpec Spec.RecordSpec Spec.PlainSpec Proofs.Hoare Proofs.CompressFrame Proofs.RenameSpec Proofs.PlainWf
+  Proofs.CompressContent Proofs.RenameContent.
 
 Theorem C07_replace_raw_shape : forall name target source sfx r,
   replace_raw name target source sfx = Ok (Some r) ->
@@ -63,3 +69,45 @@ Example C07_sample :
   replace_raw [3;119;119;119; 2;69;88; 0]%N [3;110;101;116;0]%N [2;101;120;0]%N true
   = Ok (Some [3;119;119;119; 3;110;101;116;0]%N).
 Proof. vm_compute. reflexivity. Qed.
+
+(** ** Packet level *)
+Example C07_renamed_means : forall sl tl sfx nl nl', renamed sl tl sfx nl nl' <->
+  (exists pre rest, nl = pre ++ rest /\ ci_labels rest sl /\ (sfx = true \/ pre = []) /\ nl' = pre ++ tl) \/
+  ((forall pre rest, nl = pre ++ rest -> ci_labels rest sl -> ~ (sfx = true \/ pre = [])) /\ nl' = nl).
+Proof. intros. split; intros HH; exact HH. Qed.
+
+Example C07_ren_rec_means : forall sl tl sfx r x r' x', ren_rec sl tl sfx (r, x) (r', x') <->
+  (exists ls', renamed sl tl sfx (rv_labels r) ls' /\ r' = rv_with_labels r ls') /\
+  match x, x' with
+  | RdName a, RdName b => renamed sl tl sfx a b
+  | RdMx pa a, RdMx pb b => pa = pb /\ renamed sl tl sfx a b
+  | RdSoa a1 a2 ta, RdSoa b1 b2 tb => renamed sl tl sfx a1 b1 /\ renamed sl tl sfx a2 b2 /\ ta = tb
+  | RdRaw a, RdRaw b => a = b
+  | _, _ => False
+  end.
+Proof. intros. split; intros HH; exact HH. Qed.
+
+(** [recs_enc], [rec_enc], [rdata_enc], [name_enc] and the reference decoder are spelled out in props/C06.v
+    (C06_encoding_means, C06_reference_decoder_means); [rv_with_labels r ls] is [r] with its labels replaced. *)
+Theorem C07_packet : forall p v sl tl sfx, bytes_ok p -> parse p = Ok v ->
+  Forall lab sl -> Forall lab tl -> sl <> [] -> tl <> [] -> bytes_ok (wire_of_labels tl) ->
+  length (wire_of_labels sl) <= 255 -> length (wire_of_labels tl) <= 255 ->
+  exists qls qt lxa lxn lxr qe, reading p qls qt lxa lxn lxr /\ cname_l p 12 qls qe /\
+    (renamer_rename v (wire_of_labels tl) (wire_of_labels sl) sfx = Err InvalidName \/
+     exists out qls' L' X, renamer_rename v (wire_of_labels tl) (wire_of_labels sl) sfx = Ok out /\ bytes_ok out /\
+       renamed sl tl sfx qls qls' /\ Forall2 (ren_rec sl tl sfx) (lxa ++ lxn ++ lxr) L' /\
+       out = (firstn 12 p ++ wire_of_labels qls' ++ firstn 4 (skipn qe p)) ++ X /\
+       recs_enc p out (12 + length (wire_of_labels qls') + 4) L' (length out)).
+Proof. exact rename_content. Qed.
+Print Assumptions C07_packet.
+
+(** Non-vacuity: a compressed response "www.ex A?" with the answer "www.ex A" (owner written as a pointer) is accepted, and
+    renaming the suffix "ex" to "net" succeeds. *)
+Example C07_packet_hypotheses_met :
+  let p := [0;7; 129;128; 0;1; 0;1; 0;0; 0;0;  3;119;119;119; 2;101;120; 0; 0;1; 0;1;
+            192;12; 0;1; 0;1; 0;0;0;9; 0;4; 1;2;3;4]%N in
+  match parse p with
+  | Ok v => match renamer_rename v (wire_of_labels [[110;101;116]%N]) (wire_of_labels [[101;120]%N]) true with Ok _ => True | _ => False end
+  | _ => False
+  end.
+Proof. vm_compute. exact I. Qed.
